@@ -1,4 +1,4 @@
-"""Discharge obligations: z3 (Python API, in a process pool) first, cvc5 binary for z3's unknowns."""
+"""Discharge obligations: a quick z3 attempt in a process pool, then a portfolio (z3 under three seeds, cvc5) for the rest."""
 from __future__ import annotations
 
 import multiprocessing as mp
@@ -71,6 +71,19 @@ def _run_cvc5(args):
     return run_cvc5(*args)
 
 
+def _run_cfg_tagged(args):
+    k, c = args[0], args[1]
+    return k, c, _run_cfg(args[2:])
+
+
+def _run_cfg(args):
+    text, solver, seed, timeout_s = args
+    if solver == "cvc5":
+        r, t = run_cvc5(text, timeout_s)
+        return r, t, "", ""
+    return _run_z3((text, int(timeout_s * 1000), seed))
+
+
 def discharge(obls, facts_of, timeout_s=10, procs=None, use_cvc5=True, seed=0):
     """obls: list of Obl; facts_of(obl) -> list of z3 facts.  Sets obl.result in
     {'proved','refuted','undecided','error'} (+ 'covered' etc. for expect != 'unsat')."""
@@ -85,32 +98,48 @@ def discharge(obls, facts_of, timeout_s=10, procs=None, use_cvc5=True, seed=0):
         jobs.append(o)
     if jobs:
         ctx = mp.get_context("fork")
+        # stage 1: one quick z3 attempt per obligation (most are decided in milliseconds); vacuity probes (cover /
+        # must_fail) get a short budget of their own: only a definite `unsat` matters for them
+        quick_s = min(timeout_s, 5)
         with ctx.Pool(min(procs, len(jobs))) as pool:
-            # vacuity probes (cover / must_fail) get a short budget: only a definite `unsat` matters for them
-            res = pool.map(_run_z3, [(o.smt2, int((timeout_s if o.expect == "unsat" else min(timeout_s, 3)) * 1000), seed)
+            res = pool.map(_run_z3, [(o.smt2, int((quick_s if o.expect == "unsat" else min(timeout_s, 3)) * 1000), seed)
                                      for o in jobs], chunksize=1)
         for o, (r, t, model, reason) in zip(jobs, res):
             o.raw, o.time, o.model, o.reason, o.backend = r, t, model, reason, "z3"
+        # stage 2: portfolio for what is still open - z3 under three seeds and cvc5 run side by side with the full
+        # budget; quantifier instantiation is sensitive to the solver's random choices and to the order of the facts, so
+        # one configuration being slow says little about the others.  Any definite answer decides (a `sat` and an
+        # `unsat` for the same query would be a solver bug and is reported as an error, never as a verdict)
         unk = [o for o in jobs if o.raw == "unknown" and o.expect == "unsat"]
-        if unk and use_cvc5 and os.path.exists(CVC5):
-            with ctx.Pool(min(procs, len(unk))) as pool:
-                res = pool.map(_run_cvc5, [(o.smt2, timeout_s) for o in unk], chunksize=1)
-            for o, (r, t) in zip(unk, res):
-                o.time += t
-                if r != "unknown":
-                    o.raw, o.backend = r, "cvc5"
-        # quantifier instantiation is sensitive to the solver's random choices (and to machine load): an `unknown` is
-        # re-posed under two other seeds before the obligation is called undecided
-        for rs in (7, 13):
-            unk = [o for o in jobs if o.raw == "unknown" and o.expect == "unsat"]
-            if not unk:
-                break
-            with ctx.Pool(min(procs, len(unk))) as pool:
-                res = pool.map(_run_z3, [(o.smt2, int(timeout_s * 1000), rs) for o in unk], chunksize=1)
-            for o, (r, t, model, reason) in zip(unk, res):
-                o.time += t
+        if unk:
+            # cvc5 first (it decides most of what z3 leaves open within seconds), the second look by z3's first seed last
+            cfgs = ([("cvc5", 0)] if use_cvc5 and os.path.exists(CVC5) else []) + [("z3", 7), ("z3", 13), ("z3", seed)]
+            # configurations of one obligation are spread out (all first configurations first), results are taken as they
+            # arrive, and the pool is shut down as soon as every open obligation has a definite answer: the losers of a
+            # race do not hold the run up until their time-out
+            tasks = [(k, c) for c in cfgs for k in range(len(unk))]
+            outs = []
+            pool = ctx.Pool(min(procs, len(tasks)))
+            try:
+                decided = set()
+                for k, c, out in pool.imap_unordered(_run_cfg_tagged, [(k, c, unk[k].smt2, c[0], c[1], timeout_s)
+                                                                       for k, c in tasks], chunksize=1):
+                    outs.append(((k, c), out))
+                    if out[0] in ("sat", "unsat"):
+                        decided.add(k)
+                        if len(decided) == len(unk):
+                            break
+            finally:
+                pool.terminate()
+                pool.join()
+            for (k, c), (r, t, model, reason) in outs:
+                o = unk[k]
                 if r in ("sat", "unsat"):
-                    o.raw, o.model, o.reason, o.backend = r, model, reason, f"z3(seed {rs})"
+                    if o.raw in ("sat", "unsat") and o.raw != r:
+                        o.raw, o.reason = "error", f"solvers disagree: {o.backend} says {o.raw}, {c[0]} says {r}"
+                    elif o.raw == "unknown":
+                        o.raw, o.model, o.reason, o.time = r, model, reason, t      # time of the deciding configuration
+                        o.backend = c[0] if c[0] == "cvc5" or c[1] == seed else f"z3(seed {c[1]})"
         for o in jobs:
             if o.raw == "error":
                 o.result = "error"
